@@ -40,6 +40,21 @@ func genC12(t *rapid.T) TCase {
 				c.Ops = append(c.Ops, TOp{K: "sleep", D: rapid.SampledFrom([]int{1, 1, 2, 5, 10, 20}).Draw(t, "ms")})
 			}
 		case 9:
+			switch rapid.IntRange(0, 5).Draw(t, "special") {
+			case 0:
+				c.Ops = append(c.Ops, TOp{K: "past", D: rapid.IntRange(1, 3600).Draw(t, "past"), N: rapid.IntRange(0, 7).Draw(t, "pastKind"), G: rapid.SampledFrom([]int{0, 0, 1}).Draw(t, "g")})
+				made++
+				continue
+			case 1:
+				c.Ops = append(c.Ops, TOp{K: "saturate", D: rapid.SampledFrom([]int{5, 10, 20, 30}).Draw(t, "keptMs")})
+				made += c.MaxWorkers
+				continue
+			case 2:
+				k := rapid.IntRange(2, 4).Draw(t, "equal")
+				c.Ops = append(c.Ops, TOp{K: "equal", N: k, D: rapid.SampledFrom([]int{20, 30, 50}).Draw(t, "delay"), F: rapid.IntRange(0, 15).Draw(t, "cancelMask")})
+				made += k
+				continue
+			}
 			if rapid.Bool().Draw(t, "neighbourInsteadOfTie") {
 				c.Ops = append(c.Ops, TOp{K: "neighbour", D: rapid.SampledFrom([]int{2, 5, 5, 10}).Draw(t, "delay"), N: rapid.SampledFrom([]int{3, 10, 20, 35, 45, 80, 200}).Draw(t, "gapMicros")})
 				made += 2
